@@ -4,8 +4,15 @@ Model: Model/Conn.lean (the driver loop of conn.rs, `op_call`, the channel-level
 search stream).  The theorems quantify over ALL event lists: any number of operations from any
 handles, any server response order, any resolution of the driver's `select!` races, faults at any
 point; byte-level segmentation is factored out by C06 (frames, not bytes, arrive here).
+Soundness of delivery: `C01_routing`, `C01_order` (what arrives is a subsequence of what was sent under
+that ID).  Completeness of delivery: `C01_complete` (+ `_classified`, `_inv`, `_nowrap`): a search
+receives EVERY frame the server sent under its ID from the moment the driver handled its request,
+in order, up to and including its Done.  Caller level: `C01_caller_result`, `C01_caller_items`.
 -/
 import Ldap3V.Lemmas.ConnRouteStep
+import Ldap3V.Lemmas.ConnCompleteRun
+import Ldap3V.Lemmas.ConnCompleteCaller
+import Ldap3V.Lemmas.ConnUniq
 namespace Ldap3V.Conn
 
 /-- Whatever the history: a response sitting in an operation's mailbox (what `op_call` will return)
@@ -102,5 +109,194 @@ def exEvs : List Ev :=
 
 example : ((run (init 100) exEvs).ops.map (·.mail)) = [.frame ⟨1, 11, 71, true⟩, .ack] ∧
     ((run (init 100) exEvs).chans.map (·.items)) = [[.entry ⟨2, 4, 70, false⟩]] := by decide
+
+/-! ### completeness: nothing the server sent for a search is dropped
+
+`C01_routing` / `C01_order` say that what a search receives is a SUBSEQUENCE of what the server sent
+under its ID; a driver that silently dropped entries would satisfy them.  The theorems below close
+that gap, for ALL event lists and without any schedule hypothesis (no `FreshRun`: the facts needed —
+`searchmap` has one entry per key, a request sits in the queue once — are structural). -/
+
+/-- Completeness, with the start position pinned.  Take ANY history `pre`, after which the driver
+is running and the request at the head of its queue is operation `i` = `o` with channel `c` (a
+search); let the driver handle it (`drvOp b`, either outcome of the write), at read position
+`p0 = s0.pos`; then let ANYTHING happen (`post`).  In the resulting state `s`:
+(a) as long as the search is still registered, the channel holds no Done, only entries/references/
+    intermediate responses, and — if its receiver is alive — the frames in it are EXACTLY the frames
+    with `o`'s ID among `srvLog[p0 .. pos)`, in order (nothing dropped, nothing added, nothing
+    reordered);
+(b) if the channel holds a Done `f`, it is the last item, it was read at some position `p1 - 1`, and
+    the channel holds EXACTLY the frames with `o`'s ID among `srvLog[p0 .. p1)`. -/
+theorem C01_complete (N : Nat) (pre post : List Ev) (b : Bool) (i c : Nat) (o : Op) :
+    let s0 := run (init N) pre
+    let s := run (init N) (pre ++ Ev.drvOp b :: post)
+    s0.drv = .running → s0.opQ.head? = some i → s0.ops[i]? = some o → o.chan = some c →
+    ∀ ch, s.chans[c]? = some ch →
+      ((o.id, c) ∈ s.searchmap →
+        (∀ it ∈ ch.items, ∃ f, it = .entry f ∧ (f.op = 4 ∨ f.op = 25 ∨ f.op = 19)) ∧
+        (ch.rxAlive = true →
+          ch.items.map itemFrame = ((s.srvLog.take s.pos).drop s0.pos).filter (fun f => f.id == (o.id : Int)))) ∧
+      (∀ f, Item.done f ∈ ch.items →
+        ∃ (p1 : Nat) (es : List Item), s0.pos < p1 ∧ p1 ≤ s.pos ∧ s.srvLog[p1 - 1]? = some f ∧ f.op = 5 ∧ f.good = true ∧
+          ch.items = es ++ [Item.done f] ∧ (∀ it ∈ es, ∃ g, it = .entry g ∧ (g.op = 4 ∨ g.op = 25 ∨ g.op = 19)) ∧
+          ch.items.map itemFrame = ((s.srvLog.take p1).drop s0.pos).filter (fun g => g.id == (o.id : Int))) := by
+  intro s0 s hd hq ho hc ch hch
+  obtain ⟨hcat, ch2, o2, hc2, hx, ho2, hid, _⟩ := complete_from N pre post b hd hq ho hc
+  have hc2 : s.chans[c]? = some ch2 := hc2
+  rw [hch] at hc2; cases hc2
+  refine ⟨fun hreg => hcat.explicit_open hch hreg, fun f hf => ?_⟩
+  have := hcat.explicit_closed (RouteInv.run N _) hch (by rw [hx]; exact ho2) hf
+  rw [hid] at this
+  exact this
+
+/-- (a) of `C01_complete` in the form "every deliverable frame": while the search is registered and
+its receiver alive, the channel's content is exactly the consumed frames from `p0` on that carry the
+search's ID and are something `routeSearch` hands on (entry 4 / reference 19 / intermediate 25 /
+well-formed Done 5).  (Any OTHER frame under a registered search's ID ends the connection, fix F4,
+so the two filters agree.) -/
+theorem C01_complete_classified (N : Nat) (pre post : List Ev) (b : Bool) (i c : Nat) (o : Op) :
+    let s0 := run (init N) pre
+    let s := run (init N) (pre ++ Ev.drvOp b :: post)
+    s0.drv = .running → s0.opQ.head? = some i → s0.ops[i]? = some o → o.chan = some c →
+    ∀ ch, s.chans[c]? = some ch → (o.id, c) ∈ s.searchmap → ch.rxAlive = true →
+      ch.items.map itemFrame =
+        ((s.srvLog.take s.pos).drop s0.pos).filter (fun f => f.id == (o.id : Int) && deliverable f) := by
+  intro s0 s hd hq ho hc ch hch hreg hal
+  obtain ⟨hcat, _⟩ := complete_from N pre post b hd hq ho hc
+  exact filter_deliverable (fun it hit => hcat.cls ch it hch hit) ((hcat.explicit_open hch hreg).2 hal)
+
+/-- Completeness as an invariant of every reachable state (start position existentially
+quantified): a search channel whose request the driver has not yet taken off the queue is empty and
+not registered; once it has been taken, there is a read position `p0` from which (a) and (b) of
+`C01_complete` hold. -/
+theorem C01_complete_inv (N : Nat) (evs : List Ev) :
+    let s := run (init N) evs
+    ∀ (c : Nat) (ch : Chan) (o : Op), s.chans[c]? = some ch → s.ops[ch.opIdx]? = some o →
+      (o.phase ≠ .taken → ch.items = [] ∧ ∀ k, (k, c) ∉ s.searchmap) ∧
+      (o.phase = .taken → ∃ p0, p0 ≤ s.pos ∧
+        ((o.id, c) ∈ s.searchmap →
+          (∀ it ∈ ch.items, ∃ f, it = .entry f ∧ (f.op = 4 ∨ f.op = 25 ∨ f.op = 19)) ∧
+          (ch.rxAlive = true →
+            ch.items.map itemFrame = ((s.srvLog.take s.pos).drop p0).filter (fun f => f.id == (o.id : Int)))) ∧
+        (∀ f, Item.done f ∈ ch.items →
+          ∃ (p1 : Nat) (es : List Item), p0 < p1 ∧ p1 ≤ s.pos ∧ s.srvLog[p1 - 1]? = some f ∧ f.op = 5 ∧ f.good = true ∧
+            ch.items = es ++ [Item.done f] ∧ (∀ it ∈ es, ∃ g, it = .entry g ∧ (g.op = 4 ∨ g.op = 25 ∨ g.op = 19)) ∧
+            ch.items.map itemFrame = ((s.srvLog.take p1).drop p0).filter (fun g => g.id == (o.id : Int)))) := by
+  intro s c ch o hch ho
+  have hg := Good.run N evs
+  obtain ⟨o2, ho2, hcase⟩ := hg.p c ch hch
+  have ho2 : s.ops[ch.opIdx]? = some o2 := ho2
+  rw [ho] at ho2; cases ho2
+  constructor
+  · intro hnt
+    rcases hcase with ⟨ht, _⟩ | ⟨_, he, hno⟩
+    · exact absurd ht hnt
+    · exact ⟨he, hno⟩
+  · intro ht
+    rcases hcase with ⟨_, p0, hcat⟩ | ⟨hnt, _⟩
+    · refine ⟨p0, ?_, fun hreg => hcat.explicit_open hch hreg, fun f hf => hcat.explicit_closed hg.route hch ho hf⟩
+      have := hcat.le
+      rwa [consumed_length hg.route.posLe] at this
+    · exact absurd ht hnt
+
+/-- `C01_complete` needs no schedule hypothesis.  What the no-wrap hypothesis (at most `N`
+allocations, discharging `FreshRun2`, finding F13) ADDS: while the search is registered, no other
+operation the connection still knows about (between allocation and queueing, queued, or registered in
+a routing map) has the same message ID — so "the frames with `o`'s ID" in (a) can only have been
+meant for `o`. -/
+theorem C01_complete_nowrap (N : Nat) (pre post : List Ev) (b : Bool) (i c : Nat) (o : Op)
+    (hcount : allocCount (pre ++ Ev.drvOp b :: post) ≤ N) :
+    let s0 := run (init N) pre
+    let s := run (init N) (pre ++ Ev.drvOp b :: post)
+    s0.drv = .running → s0.opQ.head? = some i → s0.ops[i]? = some o → o.chan = some c →
+    ∀ ch, s.chans[c]? = some ch → (o.id, c) ∈ s.searchmap →
+      (ch.rxAlive = true →
+        ch.items.map itemFrame = ((s.srvLog.take s.pos).drop s0.pos).filter (fun f => f.id == (o.id : Int))) ∧
+      (∀ (j : Nat) (oj : Op), s.ops[j]? = some oj → Live s j oj → oj.id = o.id → j = i) := by
+  intro s0 s hd hq ho hc ch hch hreg
+  obtain ⟨hcat, ch2, o2, hc2, hx, ho2, hid, _⟩ := complete_from N pre post b hd hq ho hc
+  have hc2 : s.chans[c]? = some ch2 := hc2
+  rw [hch] at hc2; cases hc2
+  refine ⟨(hcat.explicit_open hch hreg).2, fun j oj hoj hlive hidj => ?_⟩
+  have hu : Uniq s := Uniq.run N _ (freshRun2_init N _ hcount)
+  have ha : Acct s := Acct.run N _ (freshRun_init N _ hcount)
+  obtain ⟨ch3, o3, hc3, ho3, _, hchan3, _⟩ := ha.smOk (o.id, c) hreg
+  simp only at hc3 ho3 hchan3
+  have hc3 : s.chans[c]? = some ch3 := hc3
+  rw [hch] at hc3; cases hc3
+  have ho2 : s.ops[i]? = some o2 := ho2
+  rw [hx, ho2] at ho3; cases ho3
+  have hlive2 : Live s i o2 := Or.inr (Or.inr (Or.inr ⟨c, hchan3, by rw [hid]; exact hreg⟩))
+  exact hu.uniq j i oj o2 hoj ho2 hlive hlive2 (hidj.trans hid.symm)
+
+/-! non-vacuity: two interleaved searches (IDs 1 and 2) and unsolicited frames (IDs 9 and 7).  The
+driver registers search 1 at read position 0, reads the unsolicited frame, registers search 2 at
+read position 1; then the server's answers arrive interleaved; search 1 completes. -/
+def exPre : List Ev :=
+  [.alloc .search, .enqueue 0 none, .alloc .search, .enqueue 1 none, .srvSend ⟨9, 4, 60, false⟩, .drvOp true, .drvResp]
+
+def exPost : List Ev :=
+  [.srvSend ⟨1, 4, 61, false⟩, .srvSend ⟨2, 4, 62, false⟩, .srvSend ⟨1, 19, 63, false⟩, .srvSend ⟨7, 11, 64, true⟩,
+   .srvSend ⟨2, 25, 65, false⟩, .srvSend ⟨1, 5, 66, true⟩, .drvResp, .drvResp, .drvResp, .drvResp, .drvResp, .drvResp]
+
+/-- the hypotheses of `C01_complete` hold for search 2 (operation 1, channel 1), with `p0 = 1` -/
+example : (run (init 100) exPre).drv = .running ∧ (run (init 100) exPre).opQ.head? = some 1 ∧
+    ((run (init 100) exPre).ops[1]?.map fun o => (o.id, o.chan)) = some (2, some 1) ∧ (run (init 100) exPre).pos = 1 := by
+  decide
+
+/-- the extra hypothesis of `C01_complete_nowrap` -/
+example : allocCount (exPre ++ Ev.drvOp true :: exPost) ≤ 100 := by decide
+
+/-- … and so does the premise of (a): search 2 is still registered, its receiver alive; its channel
+holds the two frames with ID 2, which is what the right-hand side of (a) evaluates to.  Search 1
+(channel 0, registered at position 0) is in case (b): Done read at position 7 - 1. -/
+example :
+    let s := run (init 100) (exPre ++ Ev.drvOp true :: exPost)
+    s.searchmap = [(2, 1)] ∧ (s.chans.map (·.rxAlive)) = [true, true] ∧ s.pos = 7 ∧
+    (s.chans.map fun ch => ch.items.map itemFrame) =
+      [[⟨1, 4, 61, false⟩, ⟨1, 19, 63, false⟩, ⟨1, 5, 66, true⟩], [⟨2, 4, 62, false⟩, ⟨2, 25, 65, false⟩]] ∧
+    ((s.srvLog.take s.pos).drop 1).filter (fun f => f.id == 2) = [⟨2, 4, 62, false⟩, ⟨2, 25, 65, false⟩] ∧
+    ((s.srvLog.take 7).drop 0).filter (fun f => f.id == 1) = [⟨1, 4, 61, false⟩, ⟨1, 19, 63, false⟩, ⟨1, 5, 66, true⟩] ∧
+    s.srvLog[7 - 1]? = some ⟨1, 5, 66, true⟩ := by
+  decide
+
+/-! ### what the CALLER received (not just what sits in a mailbox or channel) -/
+
+/-- Whatever the history: a response that `op_call` RETURNED to its caller (`res = some (.frame f)`)
+carries that operation's own message ID, decoded as an LDAPResult, and is one of the frames the
+driver read from the server. -/
+theorem C01_caller_result (N : Nat) (evs : List Ev) :
+    let s := run (init N) evs
+    ∀ (i : Nat) (o : Op) (f : Frame), s.ops[i]? = some o → o.res = some (.frame f) →
+      f.id = (o.id : Int) ∧ f.good = true ∧ f ∈ s.srvLog.take s.pos :=
+  fun i o f ho hres => ResInv.run N evs i o f ho hres
+
+/-- Whatever the history: the items `next()` has handed to the consumer of search channel `c`, in
+the order of the calls (`handed`: the items observed at the `recv` events of the history), are the
+first `taken` items of the channel — no item skipped, repeated or reordered between the mailbox and
+the caller.  With `C01_complete` / `C01_order`: a prefix of exactly what the server sent for it. -/
+theorem C01_caller_items (N : Nat) (evs : List Ev) (c : Nat) :
+    let s := run (init N) evs
+    ∀ ch, s.chans[c]? = some ch → handed c (init N) evs = ch.items.take ch.taken ∧ ch.taken ≤ ch.items.length := by
+  intro s ch hch
+  have h0 : TakenLe (init N) := by intro c ch hc; simp [Conn.init] at hc
+  obtain ⟨e1, e2⟩ := got_run c evs (init N) h0
+  have hg0 : got (init N) c = [] := by simp [got, Conn.init]
+  rw [hg0, List.nil_append] at e1
+  refine ⟨?_, e2 c ch hch⟩
+  rw [← e1]
+  show got s c = _
+  simp only [got, hch]
+
+/-! non-vacuity: a single-result operation gets its response while a search is streaming; the
+consumer of the search takes two of its three items -/
+def exCaller : List Ev :=
+  [.alloc .single, .enqueue 0 none, .alloc .search, .enqueue 1 none, .drvOp true, .drvOp true, .poll 1,
+   .srvSend ⟨2, 4, 70, false⟩, .srvSend ⟨1, 11, 71, true⟩, .srvSend ⟨2, 4, 72, false⟩, .srvSend ⟨2, 5, 73, true⟩,
+   .drvResp, .recv 0 none, .drvResp, .poll 0, .drvResp, .drvResp, .recv 0 none]
+
+example : ((run (init 100) exCaller).ops.map (·.res)) = [some (.frame ⟨1, 11, 71, true⟩), some .ack] ∧
+    handed 0 (init 100) exCaller = [.entry ⟨2, 4, 70, false⟩, .entry ⟨2, 4, 72, false⟩] ∧
+    ((run (init 100) exCaller).chans.map fun ch => (ch.items.length, ch.taken)) = [(3, 2)] := by decide
 
 end Ldap3V.Conn
